@@ -140,7 +140,10 @@ def red_case(draw):
     axis = draw(st.sampled_from([None] + list(range(-nd, nd))))
     return {"a": a, "axis": axis, "fn": draw(st.sampled_from(["min", "max", "argmin", "argmax", "sort", "argsort", "ptp", "np.min", "np.max", "np.argmin",
                                                              "np.argmax"])),
-            "keepdims": draw(st.booleans()), "layout": draw(st.sampled_from(["C", "C", "T", "F", "strided"]))}
+            "keepdims": draw(st.booleans()), "layout": draw(st.sampled_from(["C", "C", "T", "F", "strided"])),
+            # history on the object: an ordering call first, then a sanctioned in-place update, then the measured call
+            "warm": draw(st.sampled_from([None, None, "argsort", "min", "ptp", "argmax"])),
+            "update": draw(st.sampled_from([None, "negate", "scale", "add"])), "upd_pick": draw(st.integers(0, 10**6))}
 
 
 def run_red(case, stt):
@@ -159,6 +162,22 @@ def run_red(case, stt):
         p = p[..., ::2]
         shape = p.shape
     n_el = int(np.prod(shape))
+    if case.get("warm") and n_el:
+        with lib("%s before an in-place update" % case["warm"]):
+            _ = getattr(p, case["warm"])()
+        upd = case.get("update")
+        with lib("in-place update %s" % upd):
+            if upd == "negate":
+                np.negative(p, out=p)
+            elif upd == "scale":
+                p *= -3
+            elif upd == "add":
+                k = case["upd_pick"]
+                q = pb.Phase(np.array([float((k + 7 * i) % 5 - 2) * 2.0**40 for i in range(n_el)]).reshape(shape),
+                             np.array([((k + i) % 3 - 1) * 1e-11 for i in range(n_el)]).reshape(shape))
+                p += q
+        is_phase(p, "in-place update")
+        stt.label("history_%s_then_%s" % (case["warm"], upd))
     ex = np.empty(n_el, dtype=object)
     ex[:] = O.phase_fractions(np.ascontiguousarray(p) if False else p.copy(order="C"))
     E = ex.reshape(shape)
@@ -336,7 +355,8 @@ def render_case(draw):
         fr = float(tie)
         fr = float(np.nextafter(fr, draw(st.sampled_from([-1.0, 1.0])))) if draw(st.booleans()) else fr
         fr = min(0.5, max(-0.5, fr))
-    return {"count": cnt, "frac": fr, "how": draw(st.sampled_from(["default", "precision", "precision", "format", "str", "array", "alwayssign", "imag"])),
+    return {"count": cnt, "frac": fr, "how": draw(st.sampled_from(["default", "precision", "precision", "format", "str", "array", "alwayssign", "imag", "unit_str", "unit_obj",
+                                                                    "unit_built"])),
             "p": p, "w": draw(st.sampled_from(["", "12", "+", "+20", "025"]))}
 
 
@@ -357,6 +377,11 @@ def run_render(case, stt):
             s, digits = p.to_string(), None
         elif how == "precision":
             s, digits = p.to_string(precision=prec), prec
+        elif how in ("unit_str", "unit_obj", "unit_built"):
+            # the unit the phase is already in, spelled as a string / the unit object / an equal unit object built afresh
+            un = {"unit_str": "cycle", "unit_obj": u.cycle, "unit_built": u.Unit("cycle") * 1}[how]
+            un = un.unit if hasattr(un, "unit") else un
+            s, digits = p.to_string(unit=un, precision=prec), prec
         elif how == "alwayssign":
             s, digits = p.to_string(precision=prec, alwayssign=True), prec
         elif how == "format":
